@@ -269,7 +269,7 @@ func (st *State) heapGet(name, sort string) string {
 	st.fc.declare(c, sort)
 	st.fc.heapSorts[name] = sort
 	st.heap[name] = c
-	st.heapTyping(name, c)
+	st.heapTypingAt(name, c, st.fc.entryAlloc())
 	return c
 }
 
@@ -282,6 +282,12 @@ var basicIntRanges = map[string][2]string{
 // heapTyping: every cell of an integer element heap holds a value of its Go type (needed inside quantified specs,
 // where reads are not individually typed).
 func (st *State) heapTyping(name, h string) {
+	st.heapTypingAt(name, h, st.alloc)
+}
+
+// heapTypingAt: alloc is the allocation counter of the state the heap value h belongs to (the entry counter for the
+// initial heap constants, which are created lazily but describe the state at function entry)
+func (st *State) heapTypingAt(name, h, alloc string) {
 	if strings.HasPrefix(name, "M!") {
 		// the nil map (reference 0) has no entries and size 0 in every state; sizes are never negative
 		if strings.HasSuffix(name, "!dom") {
@@ -294,9 +300,9 @@ func (st *State) heapTyping(name, h string) {
 	}
 	if heapHoldsRefs[name] {
 		// every reference stored in the heap is nil or allocated (no dangling references in Go)
-		lim := st.alloc
+		lim := alloc
 		if k := heapRefBlock[name]; k > 0 {
-			lim = sSub(st.alloc, sInt(int64(k)))
+			lim = sSub(alloc, sInt(int64(k)))
 		}
 		if strings.HasPrefix(name, "E!") {
 			st.addFact(fmt.Sprintf("(forall ((g_a Int) (g_i Int)) (! (and (<= 0 (select (select %s g_a) g_i)) (< (select (select %s g_a) g_i) %s)) :pattern ((select (select %s g_a) g_i))))", h, h, lim, h))
@@ -553,7 +559,7 @@ func (st *State) heapIn(heap map[string]string, name, sort string) string {
 	// register so that later reads through the live state agree
 	if _, ok := st.heap[name]; !ok {
 		st.heap[name] = c
-		st.heapTyping(name, c)
+		st.heapTypingAt(name, c, st.fc.entryAlloc())
 	}
 	return c
 }
